@@ -812,6 +812,13 @@ long __wrap_random(void) { on_pseudo_write(7, PC); return __real_random(); }
 void __wrap_srandom(unsigned s) { on_pseudo_write(7, PC); __real_srandom(s); }
 double __wrap_drand48(void) { on_pseudo_write(7, PC); return __real_drand48(); }
 long __wrap_lrand48(void) { on_pseudo_write(7, PC); return __real_lrand48(); }
+// thread identity is a source of nondeterminism the simulator owns: library code sees a stable id per simulated thread (real
+// pthread_t values move with the address-space layout from process to process)
+pthread_t __real_pthread_self(void);
+pthread_t __wrap_pthread_self(void) {
+    if (t_tid >= 0 && t_in_sut > 0 && t_in_rt == 0) return (pthread_t)(((uintptr_t)(t_tid == MAIN_TID ? MAXT : t_tid) + 1) << 12);
+    return __real_pthread_self();
+}
 char *__wrap_strtok(char *s, const char *d) { on_pseudo_write(0, PC); return __real_strtok(s, d); }
 char *__wrap_strerror(int e) { on_pseudo_write(1, PC); return __real_strerror(e); }
 int __wrap_rand(void) { on_pseudo_write(2, PC); return __real_rand(); }
